@@ -19,6 +19,9 @@ pub enum IEv {
     CancelB,
     RestartA,
     RestartB,
+    /// a third live iterator (by reference) over the same function but threaded from a DIFFERENT knot
+    PullX,
+    RestartX,
 }
 
 #[derive(Clone, Debug)]
@@ -33,6 +36,11 @@ pub struct IntegScn {
     pub samples: Vec<(usize, f64)>,
     /// whole-sequence consumptions of a fresh iterator: (by value?, consumer method)
     pub batches: Vec<(bool, IBatch)>,
+    /// knot of the third iterator
+    pub knot2: (f64, f64),
+    /// evaluate unrelated log-integral forms of the other family at the same argument right before every
+    /// evaluation of a result (independent objects whose calls the caller may interleave freely)
+    pub decoy: bool,
 }
 
 /// The consumer methods a caller may use on the iterators instead of plain `next()`.
@@ -342,6 +350,11 @@ where
         Err(p) => return IRes::Violation("panic".into(), format!("Piecewise::indefinite panicked: {p}")),
     };
     cov.hit("batch_integral_calls");
+    let k1 = Knot::new(scn.knot2.0, scn.knot2.1);
+    let cx = match guard(|| f.integral(k1)) {
+        Ok(c) => c,
+        Err(p) => return IRes::Violation("panic".into(), format!("Piecewise::integral panicked: {p}")),
+    };
     let mut dig = Digest::new();
 
     // ---- structure of the batch results -------------------------------------------------
@@ -422,8 +435,27 @@ where
             }
         }};
     }
+    let mut mx = Meter::default();
+    let mut itx: Option<Box<dyn Iterator<Item = Segment<T::IntegralOf>> + '_>> = None;
+    let mut nx = 0usize;
+    macro_rules! make_x {
+        () => {{
+            mx = Meter::default();
+            let src = ByRef { segs: &f.segments[..], m: mx.clone() };
+            match guard(|| Segment::integral_iter_ref(src, k1)) {
+                Ok(it) => {
+                    nx = 0;
+                    itx = Some(Box::new(it));
+                }
+                Err(p) => return IRes::Violation("panic".into(), format!("Segment::integral_iter_ref panicked on construction: {p}")),
+            }
+        }};
+    }
     make_a!();
     make_b!();
+    if scn.schedule.iter().any(|e| matches!(e, IEv::PullX | IEv::RestartX)) {
+        make_x!();
+    }
     for (step, ev) in scn.schedule.iter().enumerate() {
         prog.tick();
         cov.events += 1;
@@ -433,6 +465,24 @@ where
         }
         last_client = is_a as u8;
         match ev {
+            IEv::PullX => {
+                let r = match itx.as_deref_mut() {
+                    Some(it) => do_pull(it, "integral_iter_ref (third iterator, other knot)", &mx, &mut nx, step, scn, &cx, cov),
+                    None => Ok(false),
+                };
+                match r {
+                    Ok(true) => {
+                        cov.hit("pull_third_iterator_other_knot");
+                        dig.word(step as u64 * 2 + 7)
+                    }
+                    Ok(false) => {}
+                    Err((class, detail)) => return IRes::Violation(class, detail),
+                }
+            }
+            IEv::RestartX => {
+                itx = None;
+                make_x!();
+            }
             IEv::PullA | IEv::PullB => {
                 let r = if is_a {
                     match ita.as_deref_mut() {
@@ -482,6 +532,7 @@ where
     cov.add("interleaving_switches", switches);
     drop(ita);
     drop(itb);
+    drop(itx);
 
     // ---- whole-sequence consumptions of fresh iterators ----------------------------------
     for (bi, &(by_value, mode)) in scn.batches.iter().enumerate() {
@@ -603,6 +654,14 @@ where
                 continue;
             }
             prog.tick();
+            if scn.decoy && t > 0.0 {
+                let _ = guard(|| {
+                    let a = IntOfLogPoly4 { k: 0.5, coeffs: [1.0, 2.0, 3.0, 4.0], u: 5.0 }.evaluate(t);
+                    let b = IntOfLog { k: 0.5, poly: Poly2([1.0, 2.0, 3.0]) }.evaluate(t);
+                    a + b
+                });
+                cov.hit("decoy_evaluations");
+            }
             let v = match guard(|| res.segments[i].evaluate(t)) {
                 Ok(v) => v,
                 Err(p) => return IRes::Violation("panic".into(), format!("evaluating piece {i} of {which} at {t:e} panicked: {p}")),
@@ -673,7 +732,10 @@ fn valid(scn: &IntegScn) -> bool {
     if scn.ends.iter().any(|e| !e.is_finite()) || scn.ends.windows(2).any(|w| w[1] < w[0]) {
         return false;
     }
-    if !scn.knot.0.is_finite() || !scn.knot.1.is_finite() {
+    if !scn.knot.0.is_finite() || !scn.knot.1.is_finite() || !scn.knot2.0.is_finite() || !scn.knot2.1.is_finite() {
+        return false;
+    }
+    if matches!(scn.kind, Kind::L(_)) && scn.knot2.0 <= 0.0 {
         return false;
     }
     if matches!(scn.kind, Kind::L(_)) {
@@ -721,10 +783,13 @@ fn gen_scn(rng: &mut Rng, _tier: Tier) -> IntegScn {
     let mut ends = Vec::with_capacity(n);
     let pat = rng.below(5);
     if is_log {
+        // 5: breakpoints within 1e-3 of 1.0 (ln changes sign there; shortcuts "near one" live there)
+        let pat = if pat == 4 && rng.chance(1, 2) { 5 } else { pat };
         let mut x = match pat {
             0 => 0.25,
             1 => 1.0,
             2 => 0.5,
+            5 => *rng.pick(&[0.9991, 0.9995, 0.999999, 1.0 - f64::EPSILON, 1.0, 1.0 + f64::EPSILON, 1.000001, 1.0005]),
             _ => rng.uniform(0.05, 3.0),
         };
         for _ in 0..n {
@@ -732,6 +797,7 @@ fn gen_scn(rng: &mut Rng, _tier: Tier) -> IntegScn {
             x = match pat {
                 0 | 1 => x * *rng.pick(&[1.0, 2.0, 2.0, 4.0]),
                 2 => x + *rng.pick(&[0.0, 0.5, 0.5, 1.0]),
+                5 => x + *rng.pick(&[0.0, 1e-6, 1e-4, 3e-4, 0.5]),
                 _ => x + rng.uniform(0.01, 4.0),
             };
         }
@@ -788,7 +854,7 @@ fn gen_scn(rng: &mut Rng, _tier: Tier) -> IntegScn {
             let hi = ends[0];
             match rng.below(3) {
                 0 => hi * 0.5,
-                1 if hi > 1.0 => 1.0,
+                1 if hi > 1.0 => *rng.pick(&[1.0, 1.0, 0.9995, 0.999999, 1.0 + f64::EPSILON]),
                 _ => rng.uniform(hi * 0.05, hi * 0.999),
             }
         } else {
@@ -814,6 +880,7 @@ fn gen_scn(rng: &mut Rng, _tier: Tier) -> IntegScn {
     let ky = if exact { rng.range(-3, 3) as f64 } else { rng.uniform(-10.0, 10.0) };
     // schedule
     let len = rng.usize_in(0, 3 * n + 4);
+    let third = rng.chance(1, 3);
     let w = [
         rng.usize_in(1, 8) as u32,
         rng.usize_in(1, 8) as u32,
@@ -821,8 +888,10 @@ fn gen_scn(rng: &mut Rng, _tier: Tier) -> IntegScn {
         rng.usize_in(0, 1) as u32,
         rng.usize_in(0, 2) as u32,
         rng.usize_in(0, 2) as u32,
+        if third { rng.usize_in(1, 6) as u32 } else { 0 },
+        if third { rng.usize_in(0, 1) as u32 } else { 0 },
     ];
-    let evs = [IEv::PullA, IEv::PullB, IEv::CancelA, IEv::CancelB, IEv::RestartA, IEv::RestartB];
+    let evs = [IEv::PullA, IEv::PullB, IEv::CancelA, IEv::CancelB, IEv::RestartA, IEv::RestartB, IEv::PullX, IEv::RestartX];
     let schedule = (0..len).map(|_| evs[rng.weighted(&w)]).collect();
     // samples
     let mut samples = Vec::new();
@@ -859,7 +928,9 @@ fn gen_scn(rng: &mut Rng, _tier: Tier) -> IntegScn {
             (rng.chance(1, 2), mode)
         })
         .collect();
-    let mut scn = IntegScn { kind, ends, coefs, knot: (kx, ky), schedule, samples, batches };
+    let knot2 = (if is_log { kx * *rng.pick(&[0.5, 2.0, 1.25]) } else { kx + *rng.pick(&[-1.0, 0.5, 2.0]) }, ky + *rng.pick(&[1.0, -2.5, 0.0]));
+    let decoy = rng.chance(1, 2);
+    let mut scn = IntegScn { kind, ends, coefs, knot: (kx, ky), schedule, samples, batches, knot2, decoy };
     // magnitude classes of the abscissae: everything on the x axis is scaled together
     let scale = if is_log {
         *rng.pick(&[1.0, 1.0, 1.0, 1.0, 1.0, 1.0, 1e6, 1e-6, 1e100, 1e-100])
@@ -871,6 +942,7 @@ fn gen_scn(rng: &mut Rng, _tier: Tier) -> IntegScn {
             *e *= scale;
         }
         scn.knot.0 *= scale;
+        scn.knot2.0 *= scale;
         for s in scn.samples.iter_mut() {
             s.1 *= scale;
         }
@@ -894,6 +966,11 @@ fn shrink(scn: &IntegScn) -> Vec<IntegScn> {
             s.schedule.remove(i);
             out.push(s);
         }
+    }
+    if scn.decoy {
+        let mut s = scn.clone();
+        s.decoy = false;
+        out.push(s);
     }
     if !scn.batches.is_empty() {
         let mut s = scn.clone();
@@ -975,6 +1052,8 @@ fn to_json(scn: &IntegScn) -> Value {
         "ends": fj_list(&scn.ends),
         "coefficients": scn.coefs.iter().map(|c| fj_list(c)).collect::<Vec<_>>(),
         "knot": [fj(scn.knot.0), fj(scn.knot.1)],
+        "third_iterator_knot": [fj(scn.knot2.0), fj(scn.knot2.1)],
+        "decoy_evaluations": scn.decoy,
         "schedule": scn.schedule.iter().map(|e| match e {
             IEv::PullA => "pull integral_iter",
             IEv::PullB => "pull integral_iter_ref",
@@ -982,6 +1061,8 @@ fn to_json(scn: &IntegScn) -> Value {
             IEv::CancelB => "cancel integral_iter_ref",
             IEv::RestartA => "restart integral_iter",
             IEv::RestartB => "restart integral_iter_ref",
+            IEv::PullX => "pull third iterator",
+            IEv::RestartX => "restart third iterator",
         }).collect::<Vec<_>>(),
         "samples": scn.samples.iter().map(|&(i, t)| json!({"piece": i, "t": fj(t)})).collect::<Vec<_>>(),
         "batches": scn.batches.iter().map(|&(v, m)| json!({
@@ -1019,6 +1100,8 @@ fn from_json(v: &Value) -> Result<IntegScn, String> {
                 "cancel integral_iter_ref" => IEv::CancelB,
                 "restart integral_iter" => IEv::RestartA,
                 "restart integral_iter_ref" => IEv::RestartB,
+                "pull third iterator" => IEv::PullX,
+                "restart third iterator" => IEv::RestartX,
                 x => return Err(format!("bad schedule entry {x}")),
             })
         })
@@ -1050,7 +1133,12 @@ fn from_json(v: &Value) -> Result<IntegScn, String> {
             })
             .collect::<Result<Vec<_>, String>>()?,
     };
-    let scn = IntegScn { kind, ends, coefs, knot, schedule, samples, batches };
+    let knot2 = match v.get("third_iterator_knot").and_then(|k| k.as_array()) {
+        Some(k) if k.len() == 2 => (jf(&k[0])?, jf(&k[1])?),
+        _ => (knot.0, knot.1 + 1.0),
+    };
+    let decoy = v.get("decoy_evaluations").and_then(|d| d.as_bool()).unwrap_or(false);
+    let scn = IntegScn { kind, ends, coefs, knot, schedule, samples, batches, knot2, decoy };
     if !valid(&scn) {
         return Err("scenario is outside the property's quantifier (ill-formed function, non-finite numbers, or non-positive arguments for a log piece)".into());
     }
